@@ -245,7 +245,29 @@ def gen(rng, tier, i):
             continue
         sc.add_client(cid, li, ops, start_ms=10 + rng.choice([0, 0, 1, 3, 50]) * t, chaos=cchaos)
         tunnels.append({"cid": cid if li["kind"] != "quic" else cid + "/s0", "seed": seed, "c2s": c2s, "s2c": s2c, "proto": proto, "early": early})
-    sc.meta = {"no_generic_fill_shrink": True, "keep_ops": True, "cls": "%s>%s" % (lk, ck), "cfgkey": "%s>%s/b%d/%s/%s" % (lk, ck, bufsz, chaos_name, "splice" if splice else "buf"),
+    # casualties: tunnels whose far end aborts while the client's stream is still arriving; healthy tunnels run next to
+    # them and after them ("no byte of one connection ever appears in another": also not the bytes of a dead one)
+    casualties = []
+    if not banner_mode and li["kind"] != "quic" and rng.random() < (0.5 if splice else 0.2):
+        for k in range(rng.choice([1, 1, 2, 3])):
+            cseed = rng.getrandbits(60) | 1
+            clen = min(rng.choice([1, 700, 5000, 70000, 300000]), maxlen)
+            chdr = tag_header(cseed, clen, 0, flags=2 | (rng.choice([0, 1, 20, 200]) << 8))
+            variant = {"socks5": "5", "socks5p": "5", "socks4": "4", "socks4a": "4", "socks5auth": "5", "sockstls": "5"}.get(lk)
+            creds = ("alice", "s3cret") if lk == "socks5auth" else None
+            hs, _ = sc.client_handshake(li, oip if (lk == "socks4" and by_name) else ohost, oport, variant=variant, creds=creds)
+            ops = [dict(o, on_fail="continue") for o in hs] + [op("par", w=[dict(send(chdr), on_fail="continue"), op("send", fill=[cseed, clen], timeout_ms=20000, on_fail="continue", label="doomed")],
+                                                                   r=[op("recv_eof", timeout_ms=20000, on_fail="continue", keep=0, label="doomed-end")])]
+            cid = "x%d" % k
+            sc.add_client(cid, li, ops, start_ms=rng.choice([0, 5, 10, 40]))
+            casualties.append(cid)
+        # some healthy tunnels start only after the casualties are over
+        late = 0
+        for a in sc.actors:
+            if a.get("id", "").startswith("t") and a.get("kind") in ("tcp_client", "quic_client") and rng.random() < 0.6:
+                a["start_ms"] = a.get("start_ms", 0) + rng.choice([500, 3000, 25000])
+                late += 1
+    sc.meta = {"no_generic_fill_shrink": True, "keep_ops": True, "cls": "%s>%s" % (lk, ck), "casualties": casualties, "cfgkey": "%s>%s/b%d/%s/%s" % (lk, ck, bufsz, chaos_name, "splice" if splice else "buf"),
                "tunnels": tunnels, "lk": lk, "ck": ck, "splice": bool(splice), "chaos": chaos_name}
     sc.settle_ms = 0
     sc.max_ms = 4 * 7200000
@@ -380,6 +402,7 @@ def probes(plan, out):
         "short_write_hit": c.get("short_write", 0) > 0,
         "zero_length_direction": sum(1 for t in meta["tunnels"] if t["c2s"] == 0 or t["s2c"] == 0),
         "origin_speaks_first": sum(1 for t in meta["tunnels"] if t.get("banner")),
+        "casualty_tunnels": len(meta.get("casualties", [])),
     }
 
 
